@@ -179,7 +179,7 @@ def handlePrag (j : Json) : R (List (String × Json)) := do
               ("self", probe cidx cidx)])] else []))
   -- a deviation case (S28 / D1 / D2) that is still outside the hypotheses is exempt from the oracle it is about
   let exempt (name : String) : Bool := devName == name && !inHyp
-  let unknownRejected := namesKnown profiles ms || implErr.isSome || exempt "S28"
+  let unknownRejected := namesKnown profiles ms || implErr.isSome || exempt "S28" || exempt "S28u"
   let rejects := !(readerInconsistent profiles maxIndex ms) || implErr.isSome || !inHyp
   -- the converse at reader level: a valid routing input (known names, one well-formed group per fleet profile, all of
   -- the size the locations need) is accepted
